@@ -66,14 +66,42 @@ func genBatchProjects(root string, seed uint64, nProj int, tagProp string) ([]*S
 		sc.Weather.Folder = fmt.Sprintf("wx%02d", i)
 		sc.ResultFormat = 1
 		sc.DailyCols = pairDailyCols(sc.Soil.N())
-		if i%6 == 5 {
-			// a crop code that is not a system crop exercises the per-run dynamic crop lookup (it reads a copied parameter file)
-			sc.CropParamYml = false
+		customCrop := ""
+		if i%3 == 2 && !sc.AutoSow && !sc.AutoHarvest && !sc.AutoFert && !sc.AutoIrr {
+			// a crop code that is not a system crop exercises the per-run dynamic crop lookup: its parameter file is a copy of
+			// a shipped one under a new name in a parameter folder of its own
+			for k := 1; k < len(sc.Rotation); k++ {
+				if sc.Rotation[k].Variety == "" {
+					customCrop = sc.Rotation[k].Crop
+					sc.Rotation[k].Crop = fmt.Sprintf("Q%c%d", 'A'+rune(i%20), i%10)
+					break
+				}
+			}
 		}
 		resDummy := filepath.Join(root, "res_unused")
 		args, err := sc.Materialize(root, resDummy)
 		if err != nil {
 			return nil, nil, err
+		}
+		if customCrop != "" {
+			pdir := fmt.Sprintf("param_%s", sc.Project)
+			if err := linkParamFolder(filepath.Join(root, pdir), nil); err != nil {
+				return nil, nil, err
+			}
+			newCode := ""
+			for _, e := range sc.Rotation {
+				if strings.HasPrefix(e.Crop, "Q") && len(e.Crop) == 3 && cropInfo(e.Crop) == nil {
+					newCode = e.Crop
+				}
+			}
+			for _, ext := range []string{"", ".yml"} {
+				b, err := os.ReadFile(filepath.Join(paramDir, "PARAM."+customCrop+ext))
+				if err != nil {
+					return nil, nil, err
+				}
+				os.WriteFile(filepath.Join(root, pdir, "PARAM."+newCode+ext), b, 0644)
+			}
+			args = append(args, "parameter="+pdir)
 		}
 		var toks []string
 		for _, a := range args {
